@@ -631,11 +631,22 @@ def run(ctx):
     first_use = [s for s in walk_no_nested(rmf) if isinstance(s, ast.Assign)
                  and is_conformations(rcan.text(s.value))
                  and not isinstance(s.targets[0], (ast.Tuple, ast.List, ast.Name))]
+    # "before": every use is reached only with a non-empty result (dominated by
+    # the negation of the rejecting test), wherever the two stand in the text
+    def nonempty_at(node):
+        for e, pol in facts_at(node, rmf):
+            if pol and isinstance(e, ast.Compare) and isinstance(e.ops[0], ast.NotEq) \
+                    and isinstance(e.left, ast.Call) and call_name(e.left) == 'len' \
+                    and is_conformations(rcan.text(e.left.args[0])) and try_fold(e.comparators[0]) == 0:
+                return True
+            if pol and is_conformations(rcan.text(e)):
+                return True
+        return False
     ctx.ob('C12.R4', 'rejection:empty-input-before-use',
-           len(empty) == 1 and bool(first_use) and empty[0].lineno < first_use[0].lineno,
+           len(empty) == 1 and bool(first_use) and all(nonempty_at(u) for u in first_use),
            'input without atom records is rejected before the conformations are used', imod,
            empty[0] if empty else rmf)
-    unk = [r for r in raises if any((not p) and ".lower() == '.pdb'" in t for t, p in fact_texts(r, rmf))]
+    unk = [r for r in raises if any(p and ".lower() != '.pdb'" in t for t, p in fact_texts(r, rmf))]
     ctx.ob('C12.R4', 'rejection:unknown-file-type', len(unk) == 1,
            'an unknown file type is rejected in the else branch of the extension test', imod,
            unk[0] if unk else rmf)
